@@ -9,7 +9,8 @@ ids = sys.argv[1:] or sorted({m['property'] for m in MUTS})
 os.makedirs(os.path.join(V, 'selftest'), exist_ok=True)
 for pid in ids:
     res = []
-    for m in [m for m in MUTS if m['property'] == pid]:
+    only = os.environ.get('SELFTEST_ONLY')
+    for m in [m for m in MUTS if m['property'] == pid and (not only or m['name'] in only.split(','))]:
         d = tempfile.mkdtemp(prefix='vxmut.', dir='/dev/shm')
         try:
             subprocess.run(['rsync', '-a', '--exclude', '.git', '/repo/', d + '/'], check=True)
@@ -40,4 +41,9 @@ for pid in ids:
             print(pid, m['name'], 'CAUGHT' if caught else 'MISSED rc=%d' % r.returncode, sigs[:3])
         finally:
             shutil.rmtree(d, ignore_errors=True)
+    if only:
+        old = {m['name']: m for m in json.load(open(os.path.join(V, 'selftest', pid + '.json')))} if os.path.exists(os.path.join(V, 'selftest', pid + '.json')) else {}
+        for m in res:
+            old[m['name']] = m
+        res = list(old.values())
     json.dump(res, open(os.path.join(V, 'selftest', pid + '.json'), 'w'), indent=1)
